@@ -29,9 +29,9 @@ Unlike the other groups this one is *dynamically typed*: every Python value is a
     `env.glob` (this is where the recursion `add → Set._add → add` goes); `Gen.Ex.env nfc n` ties the knot with a budget `n`;
   * exceptions: `raise C(...)` is `throw .C` (constructor arguments - messages - are not evaluated), `try / except C` is
     `Py.try_` with a handler that tests `C ∈ Gen.Ex.excMro e` (bases read from the `class` statements);
-  * statements: assignment to locals and to `self.attr`, `del`, `assert`, `return`, `raise`, `if / elif / else`, `try / except /
+  * statements: assignment to locals and to `self.attr`, unpacking assignment `a, *b = x`, `lst.append(v)` on a local list that nothing else can refer to, `del`, `assert`, `return`, `raise`, `if / elif / else`, `try / except /
     else`, `for` over an iterable with loop-carried locals, `next(it)` on a local iterator, nested `def` (local function), docstrings; expressions: constants, names, attributes, calls, `and / or / not`,
-    comparisons, arithmetic and bitwise operators, conditional expressions, lambdas, generator expressions and list comprehensions (one `for`, no `if`), tuples of classes.
+    comparisons (`is` / `is not`: decided for singleton objects only), `any` / `all`, arithmetic and bitwise operators, conditional expressions, lambdas, generator expressions and list comprehensions (one `for`, no `if`), tuples of classes.
 
 Everything else raises Untranslatable: the definition is emitted as an always-failing stub and reported.
 """
@@ -71,7 +71,8 @@ OPERATOR_FUNCS = {"eq": "Py.eq", "ne": "Py.ne", "lt": "Py.op_lt", "le": "Py.op_l
                   "pow": "Py.op_pow", "or_": "Py.op_or", "xor": "Py.op_xor", "and_": "Py.op_and"}
 BINOPS = {ast.Add: "Py.op_add", ast.Sub: "Py.op_sub", ast.Mult: "Py.op_mul", ast.Div: "Py.op_truediv", ast.Mod: "Py.op_mod",
           ast.Pow: "Py.op_pow", ast.BitOr: "Py.op_or", ast.BitXor: "Py.op_xor", ast.BitAnd: "Py.op_and"}
-CMPOPS = {ast.Eq: "Py.eq", ast.NotEq: "Py.ne", ast.Lt: "Py.op_lt", ast.LtE: "Py.op_le", ast.Gt: "Py.op_gt", ast.GtE: "Py.op_ge"}
+CMPOPS = {ast.Eq: "Py.eq", ast.NotEq: "Py.ne", ast.Lt: "Py.op_lt", ast.LtE: "Py.op_le", ast.Gt: "Py.op_gt", ast.GtE: "Py.op_ge",
+          ast.Is: "Py.is_", ast.IsNot: "Py.is_not"}
 BUILTIN_FUNCS1 = {"len": "Py.len", "list": "Py.list_", "set": "Py.frozenset", "frozenset": "Py.frozenset", "iter": "Py.iter",
                   "hash": "Py.hash", "int": "Py.int_", "type": "Py.type_"}
 NATIVE_METHODS = {"issubset": "Py.fs_issubset", "issuperset": "Py.fs_issuperset", "union": "Py.fs_union",
@@ -177,6 +178,11 @@ def assigned_names(stmts: typing.List[ast.stmt]) -> typing.List[str]:
                     tgt(t)
             elif isinstance(s, (ast.AnnAssign, ast.AugAssign)):
                 tgt(s.target)
+            elif (isinstance(s, ast.Expr) and isinstance(s.value, ast.Call) and isinstance(s.value.func, ast.Attribute)
+                  and s.value.func.attr == "append" and isinstance(s.value.func.value, ast.Name)):
+                add(s.value.func.value.id)
+            elif isinstance(s, ast.For):
+                walk(s.body)
             elif isinstance(s, ast.If):
                 walk(s.body)
                 walk(s.orelse)
@@ -192,6 +198,9 @@ def assigned_names(stmts: typing.List[ast.stmt]) -> typing.List[str]:
             add(t.id)
         elif isinstance(t, ast.Attribute) and isinstance(t.value, ast.Name):
             add(t.value.id)
+        elif isinstance(t, (ast.Tuple, ast.List)):
+            for e in t.elts:
+                tgt(e.value if isinstance(e, ast.Starred) else e)
         else:
             raise Untranslatable("assignment target %s" % ast.unparse(t))
 
@@ -339,7 +348,7 @@ class Gen:
                 return ("class", BUILTIN_CLS[i])
             if i in BUILTIN_EXC:
                 return ("exc", i)
-            if i in BUILTIN_FUNCS1 or i in ("isinstance", "issubclass", "map", "getattr", "hasattr", "super", "next"):
+            if i in BUILTIN_FUNCS1 or i in ("isinstance", "issubclass", "map", "getattr", "hasattr", "super", "next", "any", "all"):
                 return ("builtin", i)
             if i == "NotImplemented":
                 return ("const", "Py.Obj.notImplemented")
@@ -891,6 +900,9 @@ class FnTr:
         self.exc_var: typing.Optional[str] = None
         self.getattrs: typing.Optional[typing.List[typing.Tuple[str, ast.AST, int]]] = None
         self.no_next = False   # inside a block whose rebinding of an iterator variable would be lost
+        # locals bound to a list object created in this function that has not been read since (so nothing else refers to it):
+        # `name.append(v)` on such a list is the rebinding `name = name + [v]`
+        self.fresh_lists: typing.Set[str] = set()
 
     def fork(self, inner: bool = False) -> "FnTr":
         t = FnTr(self.g, self.mod, self.cls, self.fn)
@@ -900,6 +912,7 @@ class FnTr:
         t.exc_var = self.exc_var
         t.getattrs = self.getattrs
         t.no_next = self.no_next or inner
+        t.fresh_lists = self.fresh_lists
         return t
 
     def fresh(self, p: str = "t") -> str:
@@ -1014,6 +1027,25 @@ class FnTr:
             if isinstance(t, ast.Name):
                 out.append("%slet %s := %s" % (ind, lname(t.id), a))
                 self.vars[t.id] = ("obj", lname(t.id))
+                if isinstance(s.value, (ast.List, ast.ListComp)) or (
+                        isinstance(s.value, ast.Call) and isinstance(s.value.func, ast.Name) and s.value.func.id == "list"
+                        and s.value.func.id not in self.vars):
+                    self.fresh_lists.add(t.id)
+                else:
+                    self.fresh_lists.discard(t.id)
+                return
+            if isinstance(t, (ast.Tuple, ast.List)):
+                # `a, b, *c, d = x`
+                stars = [i for i, e in enumerate(t.elts) if isinstance(e, ast.Starred)]
+                names = [e.value if isinstance(e, ast.Starred) else e for e in t.elts]
+                if len(stars) > 1 or not all(isinstance(e, ast.Name) for e in names) or len({e.id for e in names}) != len(names):
+                    raise Untranslatable("assignment target %s" % ast.unparse(t))
+                before = stars[0] if stars else len(names)
+                after = len(names) - before - 1 if stars else 0
+                u = self.let(out, ind, "Py.unpack env %s %d %s %d" % (a, before, "true" if stars else "false", after))
+                for i, e in enumerate(names):
+                    out.append("%slet %s := Py.nth %s %d" % (ind, lname(e.id), u, i))
+                    self.vars[e.id] = ("obj", lname(e.id))
                 return
             if isinstance(t, ast.Attribute) and isinstance(t.value, ast.Name) and self.vars.get(t.value.id, ("",))[0] == "obj":
                 o = lname(t.value.id)
@@ -1023,6 +1055,20 @@ class FnTr:
         if isinstance(s, ast.Assert):
             c = self.cond(s.test, out, ind)
             out.append("%sPy.assert_ %s" % (ind, c))
+            return
+        if (isinstance(s, ast.Expr) and isinstance(s.value, ast.Call) and isinstance(s.value.func, ast.Attribute)
+                and s.value.func.attr == "append" and isinstance(s.value.func.value, ast.Name)
+                and self.vars.get(s.value.func.value.id, ("",))[0] == "obj" and "append" not in self.g.all_method_names()):
+            name = s.value.func.value.id
+            if name not in self.fresh_lists:
+                raise Untranslatable("%s.append(…) on a list that may be shared" % name)
+            if s.value.keywords or len(s.value.args) != 1:
+                raise Untranslatable("arguments of .append")
+            a = self.expr(s.value.args[0], out, ind)
+            if name not in self.fresh_lists:
+                raise Untranslatable("%s.append(…) with an argument that reads the list" % name)
+            v = lname(name)
+            out.append("%slet %s ← Py.list_append env %s %s" % (ind, v, v, a))
             return
         if isinstance(s, ast.Expr):
             self.expr(s.value, out, ind)
@@ -1127,6 +1173,7 @@ class FnTr:
         if isinstance(n, ast.Name):
             if n.id in self.vars:
                 k = self.vars[n.id]
+                self.fresh_lists.discard(n.id)   # the list may be referred to from elsewhere from now on
                 if k[0] == "obj":
                     return k[1]
                 raise Untranslatable("function %s used as a value" % n.id)
@@ -1143,7 +1190,9 @@ class FnTr:
             raise Untranslatable("name %s" % n.id)
         if isinstance(n, ast.Attribute):
             return self.attribute(n, out, ind)
-        if isinstance(n, ast.Tuple):
+        if isinstance(n, (ast.Tuple, ast.List)):
+            if any(isinstance(e, ast.Starred) for e in n.elts):
+                raise Untranslatable("starred element")
             elts = [self.expr(e, out, ind) for e in n.elts]
             return "(Py.Obj.list [%s])" % ", ".join(elts)
         if isinstance(n, ast.UnaryOp):
@@ -1371,6 +1420,16 @@ class FnTr:
                 t = self.let(out, ind, "Py.next env %s" % v)
                 out.append("%slet %s := %s.2" % (ind, v, t))
                 return "%s.1" % t
+            if b in ("any", "all") and len(n.args) == 1:
+                arg = n.args[0]
+                if (isinstance(arg, ast.GeneratorExp) and len(arg.generators) == 1 and not arg.generators[0].ifs
+                        and not arg.generators[0].is_async and isinstance(arg.generators[0].target, ast.Name)):
+                    it = self.expr(arg.generators[0].iter, out, ind)   # lazily: the elements behind the deciding one are not evaluated
+                    f = self.lambda_([arg.generators[0].target.id], arg.elt, ind)
+                else:
+                    it = self.expr(arg, out, ind)
+                    f = "(fun x => pure x)"
+                return self.let(out, ind, "Py.%sM env %s %s" % (b, f, it))
             if b == "map" and len(n.args) == 2:
                 it = self.expr(n.args[1], out, ind)
                 return self.let(out, ind, "Py.map_ env %s %s" % (self.fexpr(n.args[0], 1, ind), it))
